@@ -13,6 +13,11 @@ CHECKS = {
             "Every patch of <=2 ops (<=3 on a reduced set in thorough) over a 4-path / 12-hunk-list alphabet plus 16 malformed envelopes is applied by the real Workspace::apply_patch (and the apply_patch tool) to every enumerated workspace state; success must equal the reference map and name exactly the touched files, failure must leave every byte unchanged.",
             "Values outside the alphabet (other line contents, >3 ops, symlinks, permission errors) are not covered; hunk-matching rules of the reference restate the code's documented behaviour (first match at/after cursor); mixed-EOL files compared modulo CR; left-over empty directories are information only.",
             "DESIGN.md §3 C12"),
+    "C15": ("H-inputs", "exploration",
+            "bounded exhaustive enumeration of SSE byte streams x all chunk partitions through the real decode pipe; differential (single chunk vs partition) + reference SSE parser",
+            "Every stream of <=2/3 blocks from a 14-block alphabet x {LF,CRLF} x {complete, missing final blank line, missing final EOL} is delivered through the real push_bytes -> SseDecoder -> EventFrameMapper -> sink pipe in all 2^(n-1) partitions (<=14/17 bytes) or all 1-splits, 2-splits and byte-at-a-time; frames, seqs, terminal flag and collected tool calls must equal the single-chunk delivery, which must equal a reference SSE parser on the lossily decoded body.",
+            "Block alphabet and length bounds; CR-only line endings and BOM not covered; 3+-way splits of long streams not covered; the exported driver restates the receive loop body (bound to the real HTTP loop by the engine-P checks).",
+            "DESIGN.md §3 C15"),
     "C20": ("H-bfs", "model_checking",
             "explicit-state BFS over the real TuiState::update transition function with state dedup",
             "All states reachable within the depth bound from the initial TuiState, over a frame alphabet covering every surface-relevant kind x seq {0,1,2,5,u64::MAX} x 9 capacity settings, are enumerated by executing the real update function; no-panic, bounds, lookup exactness and fold determinism are checked in every state, render on every new state up to a smaller depth.",
